@@ -308,7 +308,7 @@ def _is_background(task):
     return name.startswith("Periodic.") or name.startswith("StatsCollector") or "analysis" in name
 
 
-async def run_connections(st, uni, nconns, schedule, sid_map, rate_limiter=None, idle_timeout=3.0):
+async def run_connections(st, uni, nconns, schedule, sid_map, rate_limiter=None, idle_timeout=8.0):
     """
     schedule: list of steps
        ("open", c)                       start the handler of connection c
